@@ -13,6 +13,8 @@ package main
 import (
 	"context"
 	"fmt"
+	"io"
+	"sort"
 	"strings"
 	"sync"
 
@@ -35,7 +37,7 @@ func main() {
 		Rule: "case = generated configuration (CAS or AC factory, flat/hierarchical, geometry) x history of uploads and rotations, then 1-4 rounds of: corrupt the device range of a present object (single bit, prefix, suffix, one sector, whole object), optionally with a gated upload in flight and concurrent readers, read it, re-read the whole key universe and compare with the model partitioned by absolute block; " +
 			"distinct = hash of (configuration, corrupted block position, corruption extent, in-flight/concurrent flags); non-trivial = a detection happened with at least one object in an older-or-same block and one in a newer block",
 		Workers:     12,
-		Floors:      map[string]int64{"detections": 300, "older_or_same_checked": 1000, "newer_checked": 1000, "uploads_after_detection": 300, "inflight_uploads": 80, "inflight_refused": 20, "ac_detections": 30, "concurrent_rounds": 50},
+		Floors:      map[string]int64{"detections": 300, "older_or_same_checked": 1000, "newer_checked": 1000, "uploads_after_detection": 300, "inflight_uploads": 80, "inflight_refused": 20, "ac_detections": 30, "concurrent_rounds": 50, "slow_reader_rounds_with_release": 20},
 		Assumptions: []string{"an object's absolute block is what the key-location-map wrapper recorded for its newest index entry", "for the AC factory the obligation exists only when the corrupted bytes no longer unmarshal as an ActionResult"},
 		Race:        true,
 		Body:        body,
@@ -148,16 +150,36 @@ func one(ctx context.Context, w *run.Worker, c *run.Case) {
 			o   *obj
 			loc asm.AbsLocation
 		}
-		var present []st
-		for _, o := range objs {
-			if ok, err := read(o); ok && err == nil {
-				if l, ok := loc(o); ok {
-					present = append(present, st{o, l})
+		// snapshot reads everything (except one object) until a whole pass
+		// had no side effect on the index: reading refreshes objects in old
+		// blocks, which can rotate others out.
+		snapshot := func(exclude *obj) ([]st, bool) {
+			var out []st
+			for _, o := range objs {
+				if o == exclude {
+					continue
 				}
-			} else if err != nil && !asm.IsNotFound(err) {
-				c.Violation("localstore.Get:error-on-uncorrupted-object", "round %d snapshot: reading an uncorrupted object failed with %v", round, err)
+				if ok, err := read(o); ok && err == nil {
+					if l, ok := loc(o); ok {
+						out = append(out, st{o, l})
+					}
+				} else if err != nil && !asm.IsNotFound(err) && status.Code(err) != codes.Unavailable && !strings.Contains(err.Error(), "already been released") {
+					c.Violation("localstore.Get:error-on-uncorrupted-object", "round %d snapshot: reading an uncorrupted object failed with %v", round, err)
+				}
 			}
+			// Reading refreshes objects, which can rotate objects read
+			// earlier in the pass out again: keep only those whose newest
+			// location is still in the list.
+			pops := s.BL.Pops.Load()
+			var kept []st
+			for _, e := range out {
+				if l, ok := loc(e.o); ok && l.AbsBlock >= pops {
+					kept = append(kept, st{e.o, l})
+				}
+			}
+			return kept, true
 		}
+		present, _ := snapshot(nil)
 		// Victim: a present object with non-zero size.
 		var cands []st
 		for _, p := range present {
@@ -207,6 +229,16 @@ func one(ctx context.Context, w *run.Worker, c *run.Case) {
 			}
 		}
 
+		if v.loc.AbsBlock < s.BL.Pops.Load() {
+			// the allocation of the in-flight upload rotated the victim's block out
+			if gate != nil && inflight != nil {
+				close(gate)
+				if err := <-inflightDone; err == nil {
+					objs = append(objs, inflight)
+				}
+			}
+			continue
+		}
 		// Corrupt.
 		extent := r.Intn(5)
 		size := int(v.loc.Size)
@@ -244,8 +276,48 @@ func one(ctx context.Context, w *run.Worker, c *run.Case) {
 		}
 		c.Logf("round %d: corrupt object in abs block %d (pops=%d) off=%d len=%d extent=%d mustDetect=%v", round, v.loc.AbsBlock, pops, coff, clen, extent, mustDetect)
 
+		// Variant "slow reader": the read of the victim started BEFORE the
+		// corruption and before further rotations; the detection happens at the
+		// end of the stream, after blocks were released in between.
+		var slow buffer.ChunkReader
+		if !ac && v.loc.Size >= 8 && r.Chance(1, 3) {
+			// undo the corruption, start reading, rotate, re-snapshot, corrupt the tail
+			s.M.Blocks.Corrupt(devOff+int64(coff), clen, mask)
+			cr := s.BA.Get(ctx, v.o.d).ToChunkReader(0, size/4+1)
+			if _, err := cr.Read(); err != nil {
+				cr.Close()
+			} else {
+				slow = cr
+				pops0 := s.BL.Pops.Load()
+				for k := 0; k < 3*cfg.BlockCount() && s.BL.Pops.Load() == pops0; k++ {
+					o := newObj(r.Range(block/3, block/2))
+					if put(o, nil) == nil {
+						objs = append(objs, o)
+					}
+				}
+				w.Count("slow_reader_rounds", 1)
+				if s.BL.Pops.Load() > pops0 {
+					w.Count("slow_reader_rounds_with_release", 1)
+				}
+				// new snapshot (without touching the victim)
+				var ok bool
+				if present, ok = snapshot(v.o); !ok {
+					w.Count("rounds_without_stable_snapshot", 1)
+					for {
+						if _, err := cr.Read(); err != nil {
+							break
+						}
+					}
+					cr.Close()
+					break
+				}
+				coff, clen, mask = size-1, 1, 0x3c // the last byte is in the withheld final portion
+			}
+			s.M.Blocks.Corrupt(devOff+int64(coff), clen, mask)
+		}
+		quarantinedBefore := s.LBM.VerifSnapshot().TotalBlocksToBeReleased
 		// Read the victim, optionally while other readers are active.
-		conc := r.Chance(1, 3)
+		conc := r.Chance(1, 3) && slow == nil
 		var wg sync.WaitGroup
 		if conc {
 			w.Count("concurrent_rounds", 1)
@@ -263,7 +335,21 @@ func one(ctx context.Context, w *run.Worker, c *run.Case) {
 				}(p.o)
 			}
 		}
-		served, rerr := read(v.o)
+		var served bool
+		var rerr error
+		if slow != nil {
+			for {
+				if _, rerr = slow.Read(); rerr != nil {
+					break
+				}
+			}
+			slow.Close()
+			if rerr == io.EOF {
+				served, rerr = true, nil
+			}
+		} else {
+			served, rerr = read(v.o)
+		}
 		wg.Wait()
 		if served && rerr == nil && !ac {
 			c.Violation("localstore.Get:corrupted-object-served", "reading an object whose stored bytes were corrupted (extent %d, %d bytes at %d) completed successfully", extent, clen, coff)
@@ -363,15 +449,39 @@ func one(ctx context.Context, w *run.Worker, c *run.Case) {
 				}
 			}
 		}
+		// Introspection invariant: the detection may quarantine blocks up to
+		// and including b, not newer ones.
+		if sn := s.LBM.VerifSnapshot(); sn.TotalBlocksToBeReleased > uint64(b)+1 && sn.TotalBlocksToBeReleased > quarantinedBefore && sn.TotalBlocksToBeReleased > sn.TotalBlocksReleased {
+			q := sn.TotalBlocksToBeReleased
+			c.Violation("oldCurrentNewLocationBlobMap:quarantine-exceeds-corrupted-block", "corruption was detected in absolute block %d but the map now treats all blocks below %d as to be released (before the detection: %d)", b, q, quarantinedBefore)
+		}
+		// Newer objects, closest to b first (an over-reaching quarantine hits
+		// those first, before any allocation by a refresh can rotate blocks).
+		sort.Slice(present, func(i, j int) bool { return present[i].loc.AbsBlock < present[j].loc.AbsBlock })
 		for _, p := range present {
 			if p.loc.AbsBlock > b {
 				newer++
 				w.Count("newer_checked", 1)
-				if pr, err := asm.Present(ctx, s.BA, p.o.d); err != nil || !pr {
-					c.Violation("localstore.FindMissing:newer-object-lost", "after corruption was detected in block %d, an object in the newer block %d is reported missing (err=%v)", b, p.loc.AbsBlock, err)
+				popsBefore := s.BL.Pops.Load()
+				pr, err := asm.Present(ctx, s.BA, p.o.d)
+				if err != nil && (status.Code(err) == codes.Unavailable) {
+					continue // refresh refused: a held reader/writer pins the spare blocks
+				}
+				if err != nil || !pr {
+					if p.loc.AbsBlock < popsBefore {
+						// Physically popped meanwhile (rotation caused by the
+						// refreshes of this very check loop). An over-reaching
+						// quarantine shows before any pop: the closest newer
+						// blocks are checked first.
+						continue
+					}
+					c.Violation("localstore.FindMissing:newer-object-lost", "after corruption was detected in block %d, an object in the newer block %d is reported missing (err=%v, pops=%d)", b, p.loc.AbsBlock, err, popsBefore)
 					continue
 				}
 				if ok, err := read(p.o); !ok || err != nil {
+					if err != nil && status.Code(err) == codes.Unavailable {
+						continue
+					}
 					c.Violation("localstore.Get:newer-object-lost", "after corruption was detected in block %d, an object in the newer block %d is no longer served: %v", b, p.loc.AbsBlock, err)
 				}
 			}
